@@ -882,10 +882,11 @@ Definition totp_validate : M (user * bool * option tstatus) :=
     let input := trim_space raw in
     if c_onetime cfg then
       (if beqb (u_totp_last u) input then ret (u, shared, Some TRepeated) else
+       if negb (totp_ok (u_totp u) raw) then ret (u, shared, Some TInvalid) else
+       (* only an accepted code is remembered *)
        let u' := u <| u_totp_last := input |> in
        store_back u' shared ;;;
-       if negb (totp_ok (u_totp u) raw) then ret (u', shared, Some TInvalid)
-       else ret (u', shared, Some TSuccess))
+       ret (u', shared, Some TSuccess))
     else
       (if negb (totp_ok (u_totp u) raw) then ret (u, shared, Some TInvalid)
        else ret (u, shared, Some TSuccess)).
